@@ -132,6 +132,30 @@ def reserved_string_model(fn):
     return first_one, words
 
 
+def reserved_words_rule(prog, chk, rid="R2", primary=True):
+    rs = prog.fn("cif_is_reserved_string")
+    first_one, words = reserved_string_model(rs)
+    r2 = chk.rule(rid + "-reserved-words", "cif_is_reserved_string recognises exactly the words next_token does "
+                  "(data_/save_ as prefixes, loop_/stop_/global_ exact), case-insensitively", floor=5, primary=primary)
+    nt_words = scantab.next_token_words(prog)
+    want = {"data_": "prefix", "save_": "prefix", "loop_": "exact", "stop_": "exact", "global_": "exact"}
+    for w, kind in sorted(want.items()):
+        if w not in nt_words:
+            r2.violation("parser.c", "next_token", 0, "next_token-lacks:" + w, "next_token does not recognise %r" % w)
+        g = words.get(w)
+        if g is None:
+            r2.violation(rs.file, rs.name, rs.line, "reserved_string-lacks:" + w, "cif_is_reserved_string does not recognise %r (has %s)" % (w, sorted(words)))
+        elif g[0] != kind:
+            r2.violation(rs.file, rs.name, rs.line, "reserved_string-kind:" + w, "%r is matched as %s, expected %s" % (w, g[0], kind))
+        elif not g[1]:
+            r2.violation(rs.file, rs.name, rs.line, "reserved_string-case:" + w, "%r is not matched case-insensitively" % w)
+        else:
+            r2.ok(w, "%s in both" % kind)
+    for w in sorted(set(words) - set(want)):
+        r2.violation(rs.file, rs.name, rs.line, "reserved_string-extra:" + w, "cif_is_reserved_string also reserves %r" % w)
+
+
+
 def run(prog, chk):
     chk.level = "other"
     chk.explanation = ("Agreement of finite tables: the characters that cif_analyze_string, cif_value_set_quoted and "
@@ -210,24 +234,7 @@ def run(prog, chk):
         r1.violation(rs.file, rs.name, rs.line, "reserved_string:first",
                      "reserved first characters %s, scanner says %s (';' is special only in column 1 and must not be listed)" % (_chars(first_one), _chars(starters)))
 
-    r2 = chk.rule("R2-reserved-words", "cif_is_reserved_string recognises exactly the words next_token does "
-                  "(data_/save_ as prefixes, loop_/stop_/global_ exact), case-insensitively", floor=5)
-    nt_words = scantab.next_token_words(prog)
-    want = {"data_": "prefix", "save_": "prefix", "loop_": "exact", "stop_": "exact", "global_": "exact"}
-    for w, kind in sorted(want.items()):
-        if w not in nt_words:
-            r2.violation("parser.c", "next_token", 0, "next_token-lacks:" + w, "next_token does not recognise %r" % w)
-        g = words.get(w)
-        if g is None:
-            r2.violation(rs.file, rs.name, rs.line, "reserved_string-lacks:" + w, "cif_is_reserved_string does not recognise %r (has %s)" % (w, sorted(words)))
-        elif g[0] != kind:
-            r2.violation(rs.file, rs.name, rs.line, "reserved_string-kind:" + w, "%r is matched as %s, expected %s" % (w, g[0], kind))
-        elif not g[1]:
-            r2.violation(rs.file, rs.name, rs.line, "reserved_string-case:" + w, "%r is not matched case-insensitively" % w)
-        else:
-            r2.ok(w, "%s in both" % kind)
-    for w in sorted(set(words) - set(want)):
-        r2.violation(rs.file, rs.name, rs.line, "reserved_string-extra:" + w, "cif_is_reserved_string also reserves %r" % w)
+    reserved_words_rule(prog, chk)
 
     r3 = chk.rule("R3-margins", "the analyser's length margins equal the writer's delimiter overheads; delim_length values "
                   "are the writer's case labels", floor=3)
